@@ -86,6 +86,16 @@ def replay_rho_bg(model):
     return abs(a - b) > 1e-9 * abs(a), {"what": f"density*Bg at p1 {a!r} vs at p2 {b!r}", "inputs": m}
 
 
+def replay_rho_bg_std(model):
+    """density x Bg (x 5.615 ft3/bbl) against the mass of a standard cubic foot, M p_sc / (R T_sc) (Z = 1 at standard conditions)."""
+    from bluebonnet.fluids import gas
+    m = model_floats(model, ["T", "p1", "Tpc", "ppc", "sg", "tstd", "pstd"], default=dict(tstd=60.0, pstd=14.7))
+    got = gas.density_DAK(m["T"], m["p1"], m["Tpc"], m["ppc"], m["sg"]) * gas.b_factor_DAK(m["T"], m["p1"], m["Tpc"], m["ppc"], m["tstd"], m["pstd"]) * 5.615
+    want = 28.964 * m["sg"] * m["pstd"] / (10.73159 * (m["tstd"] + 459.67))
+    return abs(got - want) > 1e-9 * abs(want), {"what": f"density*Bg*5.615 = {got!r} vs standard-condition gas density M p_sc/(R T_sc) = {want!r} "
+                                                          f"(T_sc={m['tstd']!r} F, p_sc={m['pstd']!r} psia)", "inputs": m}
+
+
 def replay_visc(model):
     from bluebonnet.fluids import gas
     m = model_floats(model, ["T", "Tpc", "ppc", "sg", "rho1", "rho2"])
@@ -121,7 +131,8 @@ def replay_water(model):
 # ------------------------------------------------------------------ jobs
 
 def job_gas_density(job):
-    zuf = _uf("Z")
+    import bluebonnet.fluids.gas as _rg
+    zuf = _uf("Z", like=_rg.z_factor_DAK)
     gas = load_sym("bluebonnet.fluids.gas", z_factor_DAK=zuf, **SS.rebind())
     job.encoded(gas, "density_DAK", "b_factor_DAK")
     job.stub("z_factor_DAK: positive uninterpreted function of (T, p, Tpc, ppc) (its root property is C06)")
@@ -143,6 +154,9 @@ def job_gas_density(job):
                   replay=lambda m: replay_density({**m, "p": m.get("p1")}))
         job.prove(f"gas/density*Bg independent of p[path{k}]", pr.pc + [not_close(d1 * b1, d2 * b2)], bound="gas box",
                   replay=replay_rho_bg)
+        std = K("28.964") * sg * vs["pstd"] / (K("10.73159") * (vs["tstd"] + K("459.67")))
+        job.prove(f"gas/density*Bg==standard-condition mass content M p_sc/(R T_sc) per scf, any standard conditions[path{k}]",
+                  pr.pc + [not_close(d1 * b1 * K("5.615"), std)], bound="gas box, T_sc 32..100 F, p_sc 10..20 psia", replay=replay_rho_bg_std)
         job.prove(f"gas/density/reach[path{k}]", pr.pc, expect="sat")
         check_defined(job, f"gas/density/path{k}", pr)
     from bluebonnet.fluids import gas as rg
@@ -226,7 +240,7 @@ def job_gas_compressibility(job):
             job.prove(f"gas/c_g/reach[{tag}][path{k}]", prr.pc, expect="sat")
     # translator validation of compressibility_DAK with the real Z
     from bluebonnet.fluids import gas as rg
-    gasv = load_sym("bluebonnet.fluids.gas", z_factor_DAK=_uf("Z"), **SS.rebind())
+    gasv = load_sym("bluebonnet.fluids.gas", z_factor_DAK=_uf("Z", like=__import__("bluebonnet.fluids.gas", fromlist=["x"]).z_factor_DAK), **SS.rebind())
     vv, _ = box(job, T=(0, 1000), p=(0, 1e5), Tpc=(-400, 400), ppcv=(0, 1e4))
     sym = paths(job, lambda: gasv.compressibility_DAK(vv["T"], vv["p"], vv["Tpc"], vv["ppcv"]), [])[0].value
     for env in (dict(T=400.0, p=104.7, Tpc=-102.0, ppcv=649.0), dict(T=300.0, p=5014.7, Tpc=-80.95111110103215, ppcv=656.7949325583305)):
@@ -280,7 +294,8 @@ def job_viscosity(job):
 
 
 def job_oil(job):
-    rs, bo = _uf("Rs"), _uf("Bo")
+    import bluebonnet.fluids.oil as _ro
+    rs, bo = _uf("Rs", like=_ro.solution_gor_Standing), _uf("Bo", like=_ro.b_o_Standing)
     oil = load_sym("bluebonnet.fluids.oil", solution_gor_Standing=rs, b_o_Standing=bo)
     job.encoded(oil, "density_Standing")
     job.stub("solution_gor_Standing, b_o_Standing inside density_Standing: positive uninterpreted recording stubs")
